@@ -75,4 +75,29 @@ theorem C05_chaining_irrelevant (M : AModel) (p q : List Bool) (h : M.inCommonSu
     (build (xtaRead (renderXta p M))).doc = (build (xtaRead (renderXta q M))).doc := by
   rw [(C05_xta_document M p h).1, (C05_xta_document M q h).1]
 
+/-! ### tie to the current grammar (tables generated by translate/xml_tables.py from src/parser.y) -/
+
+open Gen.XmlTables in
+/-- the process productions the XTA model relies on are those of the current grammar: the sections of a `Transition`
+    (`labelRank` is their order) and of a `TransitionOpt` (no `Probability`), `->` / `-u->` ↦ controllable, `rootTransId`
+    is written from `$1` of a full transition and used as the source of a chained one, the order of the parts of a
+    process body (states, branchpoints, commit / urgent lists, init, transitions), and the four `proc_location` flag
+    combinations of `StateDecl` -/
+theorem C05_tables :
+    xtaTransitionSections = ["Select", "Guard", "Sync", "Assign", "Probability"] ∧
+    [ELabel.select [], .guard "", .sync "" .bang, .assign "", .prob ""].map labelRank = [0, 1, 2, 3, 4] ∧
+    xtaTransitionOptSections = xtaTransitionSections.take 4 ∧
+    xtaControl = [("T_ARROW", "true"), ("T_UNCONTROL_ARROW", "false")] ∧
+    xtaRootSet = ["$1"] ∧ xtaRootUse = ["$2"] ∧
+    xtaProcBody = [["ProcLocalDeclList", "States", "LocFlags", "Init", "Transitions"],
+                   ["ProcLocalDeclList", "States", "Branchpoints", "LocFlags", "Init", "Transitions"]] ∧
+    ((procRead "" (renderProc [] (sampleModelXta.templates.headD default))).map callName).eraseDups.filter
+        (fun n => n ∈ ["proc_location", "proc_branchpoint", "proc_location_commit", "proc_location_urgent", "proc_location_init", "proc_edge_begin"])
+      = ["proc_location", "proc_branchpoint", "proc_location_commit", "proc_location_urgent", "proc_location_init", "proc_edge_begin"] ∧
+    xtaStateDecl = [("false", "false"), ("false", "true"), ("true", "false"), ("true", "true"), ("false", "false")] ∧
+    [stateCalls ⟨"L", none, none⟩, stateCalls ⟨"L", none, some "r"⟩, stateCalls ⟨"L", some "i", none⟩, stateCalls ⟨"L", some "i", some "r"⟩]
+      = [[.procLocation "L" false false], [.pushExpr "r", .procLocation "L" false true],
+         [.pushExpr "i", .procLocation "L" true false], [.pushExpr "i", .pushExpr "r", .procLocation "L" true true]] := by
+  decide
+
 end UtapModel.AM
